@@ -53,7 +53,7 @@ def main(argv=None):
     from vf import core, monitor
     mod = importlib.import_module('vf.props.%s' % prop.lower())
     tier = args.tier
-    budget = args.budget or mod.BUDGET[tier]
+    budget = args.budget or float(os.environ.get('VERIF_BUDGET') or 0) or mod.BUDGET[tier]
 
     if args.replay:
         with open(args.replay) as f:
